@@ -22,6 +22,11 @@ import (
 //   T <nkA> <ext>.. <nkB> <ext>.. <np> { <lvA> <lvB> }.. <nA> <idA>.. <nB> <idB>.. <ntx> { <nops> <op>.. }..
 //   op := C <lv> sd x | D <lv> sd x      create / DeleteById through the store of that level
 //       | <kind> <pair> sd a ...         the link / count operations of c05.go on the collections of a pair
+//   K ... like T with <np> { <lvA> <lvB> <kind> }.. : which collections the two stores of a pair register for it,
+//       kind := b (AddLinkCollection and AddRefCountedLinkCollection) | l (link collection only)
+//             | r (ref-counted only) | n (neither: only the fk set symbols exist)
+//       and the additional op  DW <lv> sd - <all 0|1> <n> <id>..  = DeleteWhere through the store of that level
+//       with the filter `true` (all = 1) or `id in [..]` / `id = ".."` (model: Links/HierWhere.v)
 // Observation: per transaction  <verdict> <presence> | <dump pair 0> | <dump pair 1> ..  where presence
 // prints, for side A then B, per universe id one digit per store level (IsEntityPresent of that store),
 // and the dump of a pair is the dump of c05.go taken through the two stores of the pair.
@@ -29,6 +34,41 @@ import (
 type c05HTopo struct {
 	kids  [2][]bool // child stores of each root; true = Extended()
 	pairs [][2]int
+	kinds []string // K cases: per pair "b" | "l" | "r" | "n"; nil = every pair registers both kinds (T cases)
+}
+
+func (t c05HTopo) hasPlain(p int) bool {
+	return t.kinds == nil || t.kinds[p] == "b" || t.kinds[p] == "l"
+}
+
+func (t c05HTopo) hasRc(p int) bool {
+	return t.kinds == nil || t.kinds[p] == "b" || t.kinds[p] == "r"
+}
+
+func (t c05HTopo) tag() string {
+	if t.kinds != nil {
+		return "K"
+	}
+	return "T"
+}
+
+// registered: is the collection this operation is a method of registered for the pair
+func (t c05HTopo) registered(p int, kind string) bool {
+	switch kind {
+	case "I", "DC", "SC":
+		return t.hasRc(p)
+	}
+	return t.hasPlain(p)
+}
+
+// owns: the store of level k of side sd has at least one collection (of either kind)
+func (t c05HTopo) owns(sd, k int) bool {
+	for _, p := range t.storePairs(sd, k) {
+		if t.hasPlain(p) || t.hasRc(p) {
+			return true
+		}
+	}
+	return false
 }
 
 func (t c05HTopo) text() string {
@@ -47,13 +87,16 @@ func (t c05HTopo) text() string {
 		}
 	}
 	fmt.Fprintf(&b, " %d", len(t.pairs))
-	for _, p := range t.pairs {
+	for i, p := range t.pairs {
 		fmt.Fprintf(&b, " %d %d", p[0], p[1])
+		if t.kinds != nil {
+			b.WriteString(" " + t.kinds[i])
+		}
 	}
 	return b.String()
 }
 
-func c05HParseTopo(t *c05Tokens) c05HTopo {
+func c05HParseTopo(t *c05Tokens, kinded bool) c05HTopo {
 	var tp c05HTopo
 	for sd := 0; sd < 2; sd++ {
 		n := t.int()
@@ -69,6 +112,16 @@ func c05HParseTopo(t *c05Tokens) c05HTopo {
 			panic("c05: pair level out of range")
 		}
 		tp.pairs = append(tp.pairs, [2]int{a, b})
+		if kinded {
+			k := t.next()
+			if k != "b" && k != "l" && k != "r" && k != "n" {
+				panic("c05: bad pair kind " + k)
+			}
+			tp.kinds = append(tp.kinds, k)
+		}
+	}
+	if kinded && tp.kinds == nil {
+		tp.kinds = []string{}
 	}
 	return tp
 }
@@ -98,6 +151,12 @@ func (op c05HOp) String() string {
 func (t *c05Tokens) hop() c05HOp {
 	kind := t.next()
 	w := t.int()
+	if kind == "DW" { // DW <lv> sd - <all> <n> <id>..
+		op := c05Op{kind: kind, sd: t.side(), a: t.id()}
+		op.count = int64(t.int())
+		op.keys = t.ids()
+		return c05HOp{w: w, c05Op: op}
+	}
 	// re-read "<kind> <sd> .." with the parser of the flat operations
 	t.i--
 	t.t[t.i] = kind
@@ -161,10 +220,14 @@ func c05HNewWorld(db boltz.Db, base string, topo c05HTopo, uA, uB []string) *c05
 		b.linkSym = b.AddFkSetSymbol(b.field, a)
 		a.rcSym = a.AddFkSetSymbol(a.rcField, b)
 		b.rcSym = b.AddFkSetSymbol(b.rcField, a)
-		a.links = a.AddLinkCollection(a.linkSym, b.linkSym)
-		b.links = b.AddLinkCollection(b.linkSym, a.linkSym)
-		a.rcLinks = a.AddRefCountedLinkCollection(a.rcSym, b.rcSym)
-		b.rcLinks = b.AddRefCountedLinkCollection(b.rcSym, a.rcSym)
+		if topo.hasPlain(p) {
+			a.links = a.AddLinkCollection(a.linkSym, b.linkSym)
+			b.links = b.AddLinkCollection(b.linkSym, a.linkSym)
+		}
+		if topo.hasRc(p) {
+			a.rcLinks = a.AddRefCountedLinkCollection(a.rcSym, b.rcSym)
+			b.rcLinks = b.AddRefCountedLinkCollection(b.rcSym, a.rcSym)
+		}
 		w.cell = append(w.cell, &c05World{db: db, base: base, store: [2]*c05Store{a, b}, uni: w.uni})
 	}
 	return w
@@ -186,11 +249,48 @@ func (w *c05HWorld) apply(ctx boltz.MutateContext, op c05HOp) (err error) {
 			return st.Create(ctx, &c05Ent{Id: op.a, typ: st.typ})
 		}
 		return st.DeleteById(ctx, op.a)
+	case "DW":
+		if op.w < 0 || op.w >= len(w.level[op.sd]) {
+			return fmt.Errorf("no store of level %d", op.w)
+		}
+		return w.level[op.sd][op.w].DeleteWhere(ctx, c05HWhereQuery(op.c05Op))
 	}
 	if op.w < 0 || op.w >= len(w.cell) {
 		return fmt.Errorf("no pair %d", op.w)
 	}
 	return w.cell[op.w].apply(ctx, op.c05Op)
+}
+
+// c05HQuotable: the id can be written as a string literal of the query language without escapes
+func c05HQuotable(id string) bool {
+	if id == "" {
+		return false
+	}
+	for i := 0; i < len(id); i++ {
+		if c := id[i]; c < 0x20 || c > 0x7e || c == '"' || c == '\\' {
+			return false
+		}
+	}
+	return true
+}
+
+// c05HWhereQuery: the filter of a DW op: `true`, `id = "x"` or `id in ["x", "y"]` (an empty list selects nothing)
+func c05HWhereQuery(op c05Op) string {
+	if op.count == 1 {
+		return "true"
+	}
+	for _, k := range op.keys {
+		if !c05HQuotable(k) {
+			panic("c05: DeleteWhere filter names an id that cannot be quoted")
+		}
+	}
+	switch len(op.keys) {
+	case 0:
+		return "false"
+	case 1:
+		return `id = "` + op.keys[0] + `"`
+	}
+	return `id in ["` + strings.Join(op.keys, `", "`) + `"]`
 }
 
 func (w *c05HWorld) runTx(ops []c05HOp) string {
@@ -263,8 +363,8 @@ func (w *c05HWorld) drop() {
 	})
 }
 
-func (r *c05Runner) runHier(t *c05Tokens) string {
-	topo := c05HParseTopo(t)
+func (r *c05Runner) runHier(t *c05Tokens, kinded bool) string {
+	topo := c05HParseTopo(t, kinded)
 	uA := t.ids()
 	uB := t.ids()
 	w := c05HNewWorld(r.db, r.freshBase(), topo, uA, uB)
@@ -285,7 +385,7 @@ func (r *c05Runner) runHier(t *c05Tokens) string {
 
 func c05HHistoryText(topo c05HTopo, uA, uB []string, txs [][]c05HOp) string {
 	var b strings.Builder
-	b.WriteString("T " + topo.text() + " " + c05UniText(uA, uB))
+	b.WriteString(topo.tag() + " " + topo.text() + " " + c05UniText(uA, uB))
 	fmt.Fprintf(&b, " %d", len(txs))
 	for _, tx := range txs {
 		fmt.Fprintf(&b, " %d", len(tx))
@@ -313,12 +413,34 @@ var c05HFixedTopos = []c05HTopo{
 	{kids: [2][]bool{{true}, {false, false}}, pairs: [][2]int{{1, 2}, {0, 1}, {1, 0}}},
 }
 
+// K cases: the kinds of collection a store registers vary - only ref-counted (store.links empty), only plain,
+// both through one pair or through different pairs, several of one kind, none - at root and at child level
+var c05HKindTopos = []c05HTopo{
+	{kids: [2][]bool{nil, nil}, pairs: [][2]int{{0, 0}}, kinds: []string{"r"}},
+	{kids: [2][]bool{nil, nil}, pairs: [][2]int{{0, 0}}, kinds: []string{"l"}},
+	{kids: [2][]bool{nil, nil}, pairs: [][2]int{{0, 0}, {0, 0}}, kinds: []string{"r", "r"}},
+	{kids: [2][]bool{nil, nil}, pairs: [][2]int{{0, 0}, {0, 0}}, kinds: []string{"l", "l"}},
+	{kids: [2][]bool{nil, nil}, pairs: [][2]int{{0, 0}, {0, 0}}, kinds: []string{"r", "l"}},
+	{kids: [2][]bool{{false}, nil}, pairs: [][2]int{{1, 0}}, kinds: []string{"r"}},
+	{kids: [2][]bool{{false}, nil}, pairs: [][2]int{{1, 0}, {0, 0}}, kinds: []string{"r", "l"}},
+	{kids: [2][]bool{{false}, nil}, pairs: [][2]int{{1, 0}, {0, 0}}, kinds: []string{"l", "r"}},
+	{kids: [2][]bool{nil, {false, false}}, pairs: [][2]int{{0, 1}, {0, 2}}, kinds: []string{"r", "r"}},
+	{kids: [2][]bool{{true}, nil}, pairs: [][2]int{{1, 0}}, kinds: []string{"r"}},
+	{kids: [2][]bool{{false}, nil}, pairs: [][2]int{{0, 0}, {1, 0}}, kinds: []string{"n", "r"}},
+	{kids: [2][]bool{{false}, nil}, pairs: [][2]int{{0, 0}, {1, 0}}, kinds: []string{"b", "r"}},
+	{kids: [2][]bool{{false}, {false}}, pairs: [][2]int{{1, 1}, {0, 1}, {1, 0}}, kinds: []string{"r", "l", "b"}},
+	{kids: [2][]bool{nil, {true}}, pairs: [][2]int{{0, 1}, {0, 0}}, kinds: []string{"l", "r"}},
+	{kids: [2][]bool{{false, false}, nil}, pairs: [][2]int{{1, 0}, {2, 0}, {0, 0}}, kinds: []string{"r", "l", "n"}},
+	{kids: [2][]bool{nil, nil}, pairs: [][2]int{{0, 0}, {0, 0}, {0, 0}}, kinds: []string{"r", "b", "r"}},
+}
+
 type c05HGen struct {
-	r     *rng
-	topo  c05HTopo
-	uni   [2][]string
-	pres  [2][]map[string]bool // per side, per level
-	stats map[string]int
+	r      *rng
+	kinded bool // K cases: pair kinds, DeleteWhere
+	topo   c05HTopo
+	uni    [2][]string
+	pres   [2][]map[string]bool // per side, per level
+	stats  map[string]int
 }
 
 func c05HCopyPres(p [2][]map[string]bool) [2][]map[string]bool {
@@ -348,13 +470,19 @@ func (g *c05HGen) randomTopo() c05HTopo {
 	for i := 0; i < np; i++ {
 		t.pairs = append(t.pairs, [2]int{r.intn(len(t.kids[0]) + 1), r.intn(len(t.kids[1]) + 1)})
 	}
+	if g.kinded {
+		t.kinds = []string{}
+		for range t.pairs {
+			t.kinds = append(t.kinds, []string{"r", "r", "r", "l", "l", "l", "b", "b", "b", "n"}[r.intn(10)])
+		}
+	}
 	return t
 }
 
 // extBlocked: an Extended child store that owns a collection has no data for x (the delete is refused)
 func (g *c05HGen) extBlocked(pres [2][]map[string]bool, sd int, x string) bool {
 	for k, ext := range g.topo.kids[sd] {
-		if ext && !pres[sd][k+1][x] && len(g.topo.storePairs(sd, k+1)) > 0 {
+		if ext && !pres[sd][k+1][x] && g.topo.owns(sd, k+1) {
 			return true
 		}
 	}
@@ -372,9 +500,37 @@ func (g *c05HGen) fails(op c05HOp, pres [2][]map[string]bool) bool {
 		return pres[op.sd][0][op.a]
 	case "D":
 		return !pres[op.sd][0][op.a] || g.extBlocked(pres, op.sd, op.a)
+	case "DW":
+		for _, x := range g.whereIds(op, pres) {
+			if g.extBlocked(pres, op.sd, x) {
+				return true
+			}
+		}
+		return false
+	}
+	if !g.topo.registered(op.w, op.kind) {
+		return true
 	}
 	flat := &c05Gen{}
 	return flat.fails(op.c05Op, g.cellPresence(pres, op.w))
+}
+
+// whereIds: the entities a DeleteWhere through the store of level op.w deletes: the rows of that store's scan
+// (root: every entity of the family; plain child: its own; Extended child: the parent's) the filter accepts
+func (g *c05HGen) whereIds(op c05HOp, pres [2][]map[string]bool) []string {
+	var out []string
+	for _, x := range g.uni[op.sd] {
+		if !pres[op.sd][0][x] {
+			continue
+		}
+		if op.w > 0 && !pres[op.sd][op.w][x] && !g.topo.kids[op.sd][op.w-1] {
+			continue
+		}
+		if op.count == 1 || c05Contains(op.keys, x) {
+			out = append(out, x)
+		}
+	}
+	return out
 }
 
 func (g *c05HGen) pickLevel(sd int) int {
@@ -415,16 +571,50 @@ func (g *c05HGen) genOp(pres [2][]map[string]bool) c05HOp {
 			x = r.pick(cands)
 		}
 		// through any store of the family, also one the entity was not created through
-		return c05HOp{w: r.intn(len(g.topo.kids[sd]) + 1), c05Op: c05Op{kind: "D", sd: sd, a: x}}
+		lv := r.intn(len(g.topo.kids[sd]) + 1)
+		if g.kinded && r.chance(35) {
+			return g.genWhere(sd, lv, x, cands)
+		}
+		return c05HOp{w: lv, c05Op: c05Op{kind: "D", sd: sd, a: x}}
 	}
 	p := r.intn(len(g.topo.pairs))
 	flat := &c05Gen{r: r, uni: g.uni, ghost: [2]map[string]bool{{}, {}}, present: g.cellPresence(pres, p), stats: g.stats}
-	for {
+	for try := 0; ; try++ {
 		op := flat.genOp()
-		if op.kind != "C" && op.kind != "D" {
-			return c05HOp{w: p, c05Op: op}
+		if op.kind == "C" || op.kind == "D" {
+			continue
+		}
+		// mostly the operations of a collection that exists; rarely one of a kind the pair did not register (refused)
+		if g.kinded && !g.topo.registered(p, op.kind) && try < 40 && !r.chance(3) {
+			if try%8 == 7 {
+				p = r.intn(len(g.topo.pairs))
+				flat.present = g.cellPresence(pres, p)
+			}
+			continue
+		}
+		return c05HOp{w: p, c05Op: op}
+	}
+}
+
+// genWhere: DeleteWhere through the store of level lv: filter true, or the id x (with up to two more ids)
+func (g *c05HGen) genWhere(sd, lv int, x string, present []string) c05HOp {
+	r := g.r
+	op := c05Op{kind: "DW", sd: sd}
+	if r.chance(30) || !c05HQuotable(x) {
+		op.count = 1
+		return c05HOp{w: lv, c05Op: op}
+	}
+	op.keys = []string{x}
+	for n := r.intn(3); n > 0; n-- {
+		y := r.pick(g.uni[sd])
+		if len(present) > 0 && r.chance(60) {
+			y = r.pick(present)
+		}
+		if c05HQuotable(y) {
+			op.keys = append(op.keys, y)
 		}
 	}
+	return c05HOp{w: lv, c05Op: op}
 }
 
 // scenario: link / count on a pair, then delete one end through any store of its family
@@ -448,6 +638,9 @@ func (g *c05HGen) scenario(pres [2][]map[string]bool) []c05HOp {
 		return nil
 	}
 	a, b := r.pick(in), r.pick(peers)
+	if g.kinded {
+		return g.kindScenario(p, sd, a, b)
+	}
 	ops := []c05HOp{{w: p, c05Op: c05Op{kind: "AL", sd: sd, a: a, keys: []string{b}}}}
 	switch r.intn(3) {
 	case 0:
@@ -462,9 +655,53 @@ func (g *c05HGen) scenario(pres [2][]map[string]bool) []c05HOp {
 	return append(ops, c05HOp{w: r.intn(len(g.topo.kids[dsd]) + 1), c05Op: c05Op{kind: "D", sd: dsd, a: dx}})
 }
 
+// kindScenario: link / count a - b with whatever collections pair p registers (and with the other pairs that
+// join the same two stores), then delete one end through any store of its family - DeleteById or DeleteWhere
+func (g *c05HGen) kindScenario(p, sd int, a, b string) []c05HOp {
+	r := g.r
+	var ops []c05HOp
+	for q, pr := range g.topo.pairs {
+		if q != p && (pr != g.topo.pairs[p] || r.chance(40)) {
+			continue
+		}
+		if g.topo.hasPlain(q) {
+			ops = append(ops, c05HOp{w: q, c05Op: c05Op{kind: "AL", sd: sd, a: a, keys: []string{b}}})
+		}
+		if g.topo.hasRc(q) {
+			switch r.intn(3) {
+			case 0:
+				ops = append(ops, c05HOp{w: q, c05Op: c05Op{kind: "I", sd: sd, a: a, keys: []string{b}}})
+			case 1:
+				ops = append(ops, c05HOp{w: q, c05Op: c05Op{kind: "SC", sd: 1 - sd, a: b, keys: []string{a}, count: 2}})
+			default:
+				ops = append(ops, c05HOp{w: q, c05Op: c05Op{kind: "I", sd: 1 - sd, a: b, keys: []string{a}}},
+					c05HOp{w: q, c05Op: c05Op{kind: "I", sd: sd, a: a, keys: []string{b}}})
+			}
+		}
+	}
+	if len(ops) == 0 {
+		return nil
+	}
+	dsd, dx := sd, a
+	if r.chance(35) {
+		dsd, dx = 1-sd, b
+	}
+	lv := r.intn(len(g.topo.kids[dsd]) + 1)
+	if r.chance(30) {
+		return append(ops, g.genWhere(dsd, lv, dx, nil))
+	}
+	return append(ops, c05HOp{w: lv, c05Op: c05Op{kind: "D", sd: dsd, a: dx}})
+}
+
 func (g *c05HGen) genCase(i int) (string, [][]c05HOp) {
 	r := g.r
-	if r.chance(65) {
+	if g.kinded {
+		if r.chance(70) {
+			g.topo = c05HKindTopos[i%len(c05HKindTopos)]
+		} else {
+			g.topo = g.randomTopo()
+		}
+	} else if r.chance(65) {
 		g.topo = c05HFixedTopos[i%len(c05HFixedTopos)]
 	} else {
 		g.topo = g.randomTopo()
@@ -539,6 +776,14 @@ func (g *c05HGen) genCase(i int) (string, [][]c05HOp) {
 				} else {
 					g.stats["hier_delete_via_root"]++
 				}
+			case "DW":
+				ids := g.whereIds(op, pres)
+				for _, x := range ids {
+					for _, m := range pres[op.sd] {
+						m[x] = false
+					}
+				}
+				g.stats[fmt.Sprintf("kind_where_deletes_%d", min(len(ids), 3))]++
 			}
 		}
 		total -= len(tx)
